@@ -276,6 +276,33 @@ def body_perm(data) -> Outcome:
     return out
 
 
+def body_storage(data) -> Outcome:
+    """the same program, sequentially, under every registered storage (and one per-output mix): equal results and
+    equal stored data (all compared with the model)"""
+    from pipefunc.map._storage_array._base import storage_registry
+
+    out = Outcome()
+    prog = data["prog"]
+    labs = mp.labels(prog)
+    out.labels = [l for l in labs if l.startswith("internal") or l in ("partial_reduction", "fully_sliced", "full_reduction")]
+    out.nontrivial = any(l.startswith("internal") for l in labs) and bool({"partial_reduction", "fully_sliced", "full_reduction"} & set(labs))
+    model = _call_deps(prog)
+    names = mp.output_names(prog)
+    storages = sorted(storage_registry)
+    mix = {"": storages[data["pick"] % len(storages)]}
+    for k, fn in enumerate(prog["funcs"]):
+        mix[",".join(fn["outs"]) if len(fn["outs"]) > 1 else fn["outs"][0]] = storages[(data["pick"] >> (2 * k + 2)) % len(storages)]
+    for storage in [*storages, mix]:
+        p2 = dict(prog, storage=storage)
+        sub = Outcome()
+        run_config(p2, {"mode": "seq", "entry": "map"}, sub, model)
+        tag = storage if isinstance(storage, str) else "mixed"
+        for f in sub.failures:
+            out.fail(f"storage[{tag}]-{f.bucket}", f.detail)
+    del names
+    return out
+
+
 @st.composite
 def configs(draw):
     mode = draw(st.sampled_from(MODES))
@@ -295,6 +322,9 @@ def campaigns(tier):
     strat = st.fixed_dictionaries({"prog": mp.map_programs(max_funcs=3, max_rank=2), "cfg": configs()})
     return [
         Campaign("sched", body, strat, quick=480, thorough=8000, describe="MapPrograms x execution configuration"),
+        Campaign("storage", body_storage,
+                 st.fixed_dictionaries({"prog": mp.map_programs(max_funcs=3, max_rank=3, min_funcs=2, storages=("dict",)), "pick": st.integers(0, 2**12 - 1)}),
+                 quick=320, thorough=6000, describe="same program sequentially under every storage and a per-output mix"),
         Campaign("perm", body_perm, enumerate=enum_perm(tier), quick=0, thorough=0, exhaustive=(tier == "thorough"),
                  describe="all generation orders for the fixed family x storage x sync/async"),
     ]  # fmt: skip
